@@ -18,9 +18,13 @@ Collection-shaped feedback through the wiring layer (ORACLE-ONLY cases: no Coq m
                               on both sides), 3 TSD loop grow(x, [passive](fb())) whose feedback input has activity
                               Structural (structural=1) or Active (0); built with stdlib::feedback<> (the real
                               make_feedback_*_node over those schemas, the real ranking, the Passive argument tag)
-  8 t op key value            kind 1: op 1 add key, 2 remove key; kind 2: op 1 set key value, 2 erase key; kind 3: op 1 x.set(value)
+                              kind 4: feedback loop INSIDE a nested_<> child (passive field = variant 0 delay line / 1 accumulator,
+                              structural field = nesting depth 1 or 2); kind 5: INSIDE a map_ body, one child per key (variant as 4)
+  9 1                         (flat cases) run under the REAL-TIME executor with a virtual wall clock (verif_hook.h)
+  8 t op key value            kind 4: op 1 x.set(value); kind 5: op 1 d[key] = value (value = key * 100000 + serial);  kind 1: op 1 add key, 2 remove key; kind 2: op 1 set key value, 2 erase key; kind 3: op 1 x.set(value)
   observations: 30 id t na a* nr r* nm m* (TSS tick: added, removed, members; id 1 = written side, 2 = feedback side),
-                31 id t nmod (k v)* nrem k* nall (k v)* (TSD tick), 32 t (grow evaluated), 33 t v (x ticked), 10 t, 19 code
+                31 id t nmod (k v)* nrem k* nall (k v)* (TSD tick), 32 t (grow evaluated), 33 t v (x ticked), 10 t, 19 code,
+                34 side t v (inside a child graph: side 1 = written to the feedback, 2 = delivered by it)
 Observation lines
   10 t                     root cycle at t
   11 i t                   node i evaluated by the graph at t
@@ -34,6 +38,7 @@ Observation lines
   15 i valid v lmt         final output
   19 code                  exception escaped run
 """
+import bisect
 import random
 
 NAME = "feedback"
@@ -164,10 +169,25 @@ def _times(rng, start, n):
 
 def gen_wired(rng, tier):
     start = rng.randint(1, 3)
-    kind = rng.choice([1, 1, 2, 3, 3])
+    kind = rng.choice([1, 1, 2, 3, 3, 4, 5, 5])
     n = rng.randint(2, 6 if tier == "quick" else 10)
     times = _times(rng, start, n)
     lines = []
+    if kind == 4:
+        for j, t in enumerate(times):
+            lines.append([8, t, 1, 0, 1 + j * 3 + rng.randint(0, 2)])
+        return [[1, start, times[-1] + rng.randint(1, 4)], [7, 4, rng.choice([0, 1]), rng.choice([1, 2])]] + lines
+    if kind == 5:
+        # several keys; consecutive cycles in which only OTHER keys tick while a delivery is due inside a child
+        serial = 0
+        t = start + rng.choice([0, 0, 1])
+        for _ in range(n + 2):
+            ks = rng.sample([1, 2, 3], rng.choice([1, 1, 2, 3]))
+            for k in sorted(ks):
+                serial += 1
+                lines.append([8, t, 1, k, k * 100000 + serial])
+            t += rng.choice([1, 1, 1, 1, 2, 4])
+        return [[1, start, t + rng.randint(0, 3)], [7, 5, rng.choice([0, 0, 1]), 0]] + lines
     if kind == 1:
         members = set()
         for t in times:
@@ -224,9 +244,37 @@ def agree(case, impl_out, model_out):
     return isinstance(impl_out, list) and isinstance(model_out, list) and impl_out == model_out
 
 
+def gen_long_loop(rng):
+    """An active self loop  acc = emit(1 + fb(acc))  with an initial value: one write per smallest step, for more than
+    1024 (2048) consecutive steps, end time far enough away; mostly under the real-time executor."""
+    start = rng.randint(1, 3)
+    span = rng.choice([rng.randint(1040, 1300), rng.randint(2060, 2400)])
+    b = _B(rng)
+    s = b.source(rng.randint(0, 9))
+    acc = b.native(0, 0, 1, [(s, 1, 1)], 0)
+    b.op(acc, -2, 6, 1)
+    b.sink(acc, s)
+    case = b.case(start, start + span + rng.randint(50, 400))
+    # the loop stops by itself after `span` writes: run `span` gets an empty script
+    case.append([3, acc, span, 0, 0, 0])
+    if rng.random() < 0.85:
+        case.insert(1, [9, 1])
+    return case
+
+
 def gen(rng, tier, prop):
-    if rng.random() < 0.3:
+    r0 = rng.random()
+    if r0 < 0.3:
         return gen_wired(rng, tier)
+    if r0 < 0.3 + (0.016 if tier == "quick" else 0.001):
+        return gen_long_loop(rng)
+    case = gen_flat(rng, tier, prop)
+    if rng.random() < 0.3:
+        case.insert(1, [9, 1])
+    return case
+
+
+def gen_flat(rng, tier, prop):
     b = _B(rng)
     start = rng.randint(1, 3)
     span = rng.randint(5, 16 if tier == "quick" else 30)
@@ -411,7 +459,10 @@ def wired_regressions():
     a = [[1, 1, 31], [7, 1, 0, 0], [8, 1, 1, 1, 0], [8, 1, 1, 2, 0], [8, 2, 1, 3, 0], [8, 3, 2, 2, 0], [8, 4, 1, 4, 0], [8, 4, 2, 3, 0],
          [8, 7, 2, 1, 0], [8, 8, 2, 4, 0], [8, 10, 1, 5, 0]]
     b = [[1, 1, 41], [7, 3, 1, 1], [8, 1, 1, 0, 10], [8, 4, 1, 0, 13], [8, 5, 1, 0, 14]]
-    return [a, b]
+    c = [[1, 1, 31], [7, 5, 0, 0], [8, 1, 1, 1, 100000], [8, 1, 1, 2, 200000], [8, 2, 1, 2, 200001], [8, 3, 1, 1, 100002],
+         [8, 3, 1, 2, 200002], [8, 4, 1, 2, 200003], [8, 7, 1, 1, 100006], [8, 8, 1, 2, 200007], [8, 8, 1, 3, 300007],
+         [8, 9, 1, 3, 300008], [8, 13, 1, 1, 100012]]
+    return [a, b, c]
 
 
 def enumerate_cases(prop):
@@ -566,6 +617,8 @@ def stats_wired(case, out):
     start, end, kind, passive, structural, W, R, X, G, cycles = _wired_parse(case, out)
     return {"wired_cases": 1, "wired_tss": int(kind == 1), "wired_tsd": int(kind == 2), "wired_tsd_loop": int(kind == 3),
             "wired_passive_structural": int(kind == 3 and passive and structural), "coll_writes": len(W), "coll_deliveries": len(R),
+            "wired_nested_child": int(kind == 4), "wired_map_child": int(kind == 5),
+            "child_writes": sum(1 for l in out if l[0] == 34 and l[1] == 1), "child_deliveries": sum(1 for l in out if l[0] == 34 and l[1] == 2),
             "removal_only_deltas": sum(1 for _t, p in W if _removal_only(p)), "cycles": len(cycles),
             "error": int(any(l[0] == 19 for l in out))}
 
@@ -580,6 +633,24 @@ def oracle_wired(case, out):
     if any(l[0] == 19 for l in out):
         return [("crash", "exception escaped the wired run")]
     start, end, kind, passive, structural, W, R, X, G, cycles = _wired_parse(case, out)
+    if kind in (4, 5):
+        # one loop instance per key (the value carries the key): the shift relation per instance
+        keys = sorted({l[3] // 100000 for l in out if l[0] == 34})
+        for k in keys:
+            Wk = [(l[2], l[3]) for l in out if l[0] == 34 and l[1] == 1 and l[3] // 100000 == k]
+            Rk = [(l[2], l[3]) for l in out if l[0] == 34 and l[1] == 2 and l[3] // 100000 == k]
+            expk = [(t + 1, v) for (t, v) in Wk if t + 1 < end]
+            if Rk != expk:
+                missing = [e for e in expk if e not in Rk]
+                extra = [e for e in Rk if e not in expk]
+                kindf = "fb_lost" if missing and not extra else ("fb_spurious" if extra and not missing else "fb_delay")
+                where = "a nested_<> child (depth %d)" % structural if kind == 4 else "the map_ child of key %d" % k
+                fails.append((kindf, "feedback loop inside %s: written %s; expected deliveries %s; observed %s; missing %s; extra %s"
+                              % (where, Wk[:10], expk[:10], Rk[:10], missing[:4], extra[:4])))
+            for (t, _v) in expk:
+                if t not in cycles:
+                    fails.append(("fb_no_cycle", "no root cycle at %d for a delivery inside a child graph" % t))
+        return fails
     # an EMPTY delta (a tick that changed nothing, e.g. add of a present element) is by design not replayed
     # on an already valid collection (ts_delta.cpp delta_has_effect_tss/_tsd: "dedup"); on a still invalid
     # feedback output it is the validating tick
@@ -636,6 +707,8 @@ def stats(case, out):
     return {"nodes": len(nodes), "cycles": len(cyc), "pairs": len(prs), "uncovered_pairs": sum(1 for x in prs if not x[3]),
             "with_init": sum(1 for nd in nodes if nd["kind"] == 1 and nd["init"] is not None),
             "deliveries": deliveries, "back_to_back_writes": back2back, "passive_fb_reads": passive_reads,
+            "realtime_runs": int(any(l[0] == 9 and len(l) > 1 and l[1] == 1 for l in case)),
+            "long_loops_over_1024": int(ok and len(cyc) > 1024),
             "invalidations": sum(1 for l in out if l[0] == 16 and len(l) == 4 and l[3] == 1) if ok else 0,
             "quiesced_before_end": int(ok and bool(cyc) and any(l[0] == 20 and l[2] == MAX_DT for l in out)),
             "ran_to_end": int(ok and bool(cyc) and cyc[-1] == end - 1),
@@ -646,7 +719,7 @@ def nontrivial(case, out):
     if not isinstance(out, list):
         return False
     if is_wired(case):
-        return sum(1 for l in out if l[0] in (30, 31) and l[1] == 2) >= 2
+        return sum(1 for l in out if l[0] in (30, 31, 34) and l[1] == 2) >= 2
     start, end, nodes, scripts = parse_case(case)
     st = streams(case, out)
     return any(len(st.get(s, [])) >= 2 for (_k, _p, s, _c) in pairs_of(nodes))
@@ -667,6 +740,7 @@ def oracle(prop, case, out):
     n = len(nodes)
     err = any(l[0] == 19 for l in out)
     cycles = [l[1] for l in out if l[0] == 10]
+    cycle_set = set(cycles)
     st = streams(case, out)
     evaluated = {}
     for l in out:
@@ -715,9 +789,10 @@ def oracle(prop, case, out):
                           % (s, k, p, writes, exp, reads)))
         # the cycle of every delivery exists even when nothing else is scheduled there
         for (t, v) in exp:
-            if t not in cycles and not err:
+            if t not in cycle_set and not err:
                 fails.append(("fb_no_cycle", "no engine cycle at %d for the delivery of %d by source %d" % (t, v, s)))
     # ---- every reader's view of a feedback source is the expected stream's state at that time
+    exp_times = {}
     for l in out:
         if l[0] != 12:
             continue
@@ -727,8 +802,10 @@ def oracle(prop, case, out):
             if src not in expected or not src < i:
                 continue
             valid, mod, val, lmt = l[6 + 4 * si: 10 + 4 * si]
-            past = [e for e in expected[src] if e[0] <= t]
-            exp = [1, int(past[-1][0] == t), past[-1][1], past[-1][0]] if past else [0, 0, 0, 0]
+            ets = exp_times.setdefault(src, [e[0] for e in expected[src]])
+            pi = bisect.bisect_right(ets, t)
+            last = expected[src][pi - 1] if pi else None
+            exp = [1, int(last[0] == t), last[1], last[0]] if last else [0, 0, 0, 0]
             if [valid, mod, val, lmt] != exp:
                 prod = next((p for (k, p, s, c) in pairs_of(nodes) if s == src), None)
                 same = [w for w in st.get(prod, []) if w[0] == t]
@@ -784,6 +861,14 @@ def shrink(case):
         for idx, l in enumerate(case):
             if l[0] == 1 and l[2] - l[1] > 3:
                 yield case[:idx] + [[1, l[1], l[2] - 1]] + case[idx + 1:]
+        return
+    win = next((l for l in case if l[0] == 1), [1, 1, 10])
+    if win[2] - win[1] > 300:
+        # a long loop: every candidate costs thousands of cycles, so only shorten the run (a few sizes)
+        span = win[2] - win[1]
+        for ns in (span // 2, span * 3 // 4, span - 100, span - 10):
+            if ns > 300 and ns < span:
+                yield [([1, l[1], l[1] + ns] if l[0] == 1 else l) for l in case]
         return
     heads = [l for l in case if l[0] != 3]
     ops = [l for l in case if l[0] == 3]
